@@ -9,7 +9,6 @@ import (
 	"crypto/rand"
 	"encoding/hex"
 	"fmt"
-	"io"
 	"testing"
 	"testing/synctest"
 	"time"
@@ -23,6 +22,7 @@ import (
 
 	"i2psim.local/sim/engine"
 	"i2psim.local/sim/refmodel"
+	"i2psim.local/sim/seams"
 )
 
 type World struct{}
@@ -105,90 +105,14 @@ func (World) Generate(r *engine.RNG, tier string) *engine.Script {
 	return s
 }
 
-// faultyReader is the entropy seam with fault injection.
-type faultyReader struct {
-	under   io.Reader
-	kind    string
-	param   int
-	served  int
-	history []byte
-	fired   bool
-}
-
-func (f *faultyReader) Read(b []byte) (int, error) {
-	if len(b) == 0 {
-		return 0, nil
-	}
-	switch f.kind {
-	case "entropy_short":
-		n := 1 + f.param%7
-		if n < len(b) {
-			b = b[:n]
-			f.fired = true
-		}
-		n2, err := f.under.Read(b)
-		f.served += n2
-		return n2, err
-	case "entropy_restart":
-		// VM clone: after param+1 bytes the stream starts over
-		for i := range b {
-			if f.served <= f.param {
-				var one [1]byte
-				if _, err := f.under.Read(one[:]); err != nil {
-					return i, err
-				}
-				f.history = append(f.history, one[0])
-				b[i] = one[0]
-			} else {
-				b[i] = f.history[(f.served-f.param-1)%len(f.history)]
-				f.fired = true
-			}
-			f.served++
-		}
-		return len(b), nil
-	case "entropy_zero":
-		for i := range b {
-			b[i] = 0
-		}
-		f.fired = true
-		f.served += len(b)
-		return len(b), nil
-	case "entropy_ones":
-		for i := range b {
-			b[i] = 0xFF
-		}
-		f.fired = true
-		f.served += len(b)
-		return len(b), nil
-	case "entropy_error":
-		// only on the read that goes through an io.Reader argument (the
-		// ephemeral key generation, first 32 bytes): crypto/rand.Read aborts
-		// the process when a replaced Reader fails.
-		at := f.param % 32
-		if f.served+len(b) > at && f.served < 32 {
-			n := at - f.served
-			if n < 0 {
-				n = 0
-			}
-			n2, _ := f.under.Read(b[:n])
-			f.served += n2
-			f.fired = true
-			return n2, fmt.Errorf("simulated entropy source failure after %d bytes", f.served)
-		}
-	}
-	n, err := f.under.Read(b)
-	f.served += n
-	return n, err
-}
-
 type stored struct {
-	orig      []byte
-	ct        []byte
-	plain     []byte
-	client    int
-	damaged   bool
-	damage    string
-	sigType   int
+	orig    []byte
+	ct      []byte
+	plain   []byte
+	client  int
+	damaged bool
+	damage  string
+	sigType int
 }
 
 func clientKeys(i int) (x25519.PublicKey, x25519.PrivateKey) {
@@ -365,25 +289,25 @@ func encrypt(o *engine.Outcome, op *engine.Op, f *engine.Fault, store map[int64]
 	pub, _ := clientKeys(client)
 	var cookie [32]byte
 	copy(cookie[:], refmodel.Expand(uint64(op.N[3]), "cookie", 32))
-	var fr *faultyReader
+	var fr *seams.FaultyReader
 	saved := rand.Reader
 	if f != nil && len(f.N) > 0 {
-		fr = &faultyReader{under: saved, kind: f.Kind, param: int(f.N[0])}
+		fr = &seams.FaultyReader{Under: saved, Kind: f.Kind, Param: int(f.N[0])}
 		rand.Reader = fr
 	}
 	var ct []byte
 	var eerr error
 	panicked := o.Guard("EncryptInnerLeaseSet2", func() { ct, eerr = encrypted_leaseset.EncryptInnerLeaseSet2(&ls2, cookie, pubForm(pub, int(op.N[2]))) })
 	rand.Reader = saved
-	if fr != nil && fr.fired {
-		o.Fault(fr.kind)
+	if fr != nil && fr.Fired {
+		o.Fault(fr.Kind)
 	}
 	if panicked {
 		return
 	}
 	o.Probe("encryptions")
 	if eerr != nil {
-		if fr != nil && fr.fired {
+		if fr != nil && fr.Fired {
 			o.Probe("encrypt_error_under_entropy_fault")
 			o.FP.Step("encrypt-error", op.N[0])
 			return
@@ -391,7 +315,7 @@ func encrypt(o *engine.Outcome, op *engine.Op, f *engine.Fault, store map[int64]
 		o.Violate("C16/encrypt-fails/"+fmt.Sprintf("pubform%d", op.N[2]%4), "EncryptInnerLeaseSet2 failed without any fault: %v", short(eerr))
 		return
 	}
-	if fr != nil && fr.kind == "entropy_error" && fr.fired {
+	if fr != nil && fr.Kind == "entropy_error" && fr.Fired {
 		o.Violate("C16/encrypt-succeeds-although-entropy-source-failed", "EncryptInnerLeaseSet2 returned a ciphertext although the key-generation read failed")
 	}
 	plain, _ := ls2.Bytes()
@@ -548,12 +472,12 @@ func blind(t *testing.T, o *engine.Outcome, idx int, op *engine.Op) {
 		return
 	}
 	type node struct {
-		zone       int
-		unix, ns   int64
-		out        []byte
-		out2       []byte
-		err        error
-		bd         destination.Destination
+		zone     int
+		unix, ns int64
+		out      []byte
+		out2     []byte
+		err      error
+		bd       destination.Destination
 	}
 	nodes := []*node{{zone: int(op.N[4]), unix: op.N[5], ns: op.N[6]}, {zone: int(op.N[7]), unix: op.N[8], ns: op.N[9]}}
 	for _, n := range nodes {
